@@ -60,6 +60,15 @@ def norm_code(e):
 
 
 def norm_value(v, t):
+    """Value modulo the spelling of lambda code. A component whose shape is not what its declared type says (a declared type
+    that does not describe the value is C02's matter) is left as it is, so that the rest is still normalised."""
+    try:
+        return _norm_value(v, t)
+    except (TypeError, IndexError, ValueError, KeyError, AttributeError):
+        return v
+
+
+def _norm_value(v, t):
     p = t[0]
     if p == 'lambda':
         return norm_code(v)
